@@ -83,6 +83,24 @@ func TestC01Session(t *testing.T) {
 		cfg := drawPairCfg(rt, pairGenOpts{})
 		fs := sim.DrawFateScript(rt, c01FateOpts)
 		app := drawSessApps(rt, pairMSS(cfg), 30, 150_000)
+		// a paced writer that keeps writing small pieces right through an outage of
+		// many seconds - long enough for a segment to be retransmitted dozens of
+		// times (the library's dead-link threshold is 20) - and after it
+		paced := rapid.IntRange(0, 3).Draw(rt, "pacedThroughOutage") == 0
+		if paced {
+			for e := 0; e < 2; e++ {
+				cfg.Opts[e].SndWnd = max(cfg.Opts[e].SndWnd, 128)
+				cfg.Opts[e].RcvWnd = max(cfg.Opts[e].RcvWnd, 128)
+			}
+			n := rapid.IntRange(20, 60).Draw(rt, "pacedWrites")
+			app[0].Writes, app[0].GapMs, app[0].VecSeed = nil, nil, 0
+			for i := 0; i < n; i++ {
+				app[0].Writes = append(app[0].Writes, rapid.IntRange(1, 300).Draw(rt, "pacedSize"))
+				app[0].GapMs = append(app[0].GapMs, int32(rapid.SampledFrom([]int{200, 700, 1500, 3000}).Draw(rt, "pacedGap")))
+			}
+			from := int64(rapid.IntRange(50, 3000).Draw(rt, "pacedOutageFrom"))
+			fs.Outages = append(fs.Outages, sim.Outage{From: from, To: from + int64(rapid.SampledFrom([]int{4000, 8000, 30_000, 70_000}).Draw(rt, "pacedOutageLen")), Mask: rapid.IntRange(1, 3).Draw(rt, "pacedOutageMask")})
+		}
 		retunes := drawRetunes(rt, cfg)
 		var d snmpDelta
 		var dup, smallReads, vecWrites, retuned int
@@ -133,6 +151,9 @@ func TestC01Session(t *testing.T) {
 		}
 		if retuned > 0 {
 			cl = append(cl, "retuned_in_mid_connection")
+		}
+		if paced {
+			cl = append(cl, "paced_writer_through_a_long_outage")
 		}
 		if completed {
 			cl = append(cl, "completed")
